@@ -75,6 +75,9 @@ class MacroVisitor(ExplorerScriptVisitor):
 
     def visitMacrodef_children(self, macrodef_handler: MacroDefCompileHandler) -> ExplorerScriptMacro:
         """Visit the children of the macro def, after the macro resolution order has been processed"""
+        # Every macro gets its own source map, it must not see (or grow with) the entries of the other macros.
+        self.source_map_builder = SourceMapBuilder()
+        self.compiler_ctx.source_map_builder = self.source_map_builder
         self._root_handler = macrodef_handler
         self.visitChildren(macrodef_handler.ctx)
 
